@@ -124,10 +124,15 @@ void TcpServer::stop()
     if (d_->state != State::kRunning)
         return;
 
+    //! stop() 有可能是在某个连接的回调中被调用的（如 disconnected_cb），此时不能直接销毁该连接，要延后释放
+    //! (stop() may be called from inside a callback of one of these connections - e.g. its disconnected
+    //!  callback: destroying that connection here destroyed an object inside its own callback; like
+    //!  disconnect(), let the loop release the connections afterwards)
+    event::Loop *wp_loop = d_->wp_loop;
     d_->conns.foreach(
-        [](TcpConnection *conn) {
+        [wp_loop](TcpConnection *conn) {
             conn->disconnect();
-            delete conn;
+            wp_loop->runNext([conn] { delete conn; }, "TcpServer::stop, delete");
         }
     );
     d_->conns.clear();
